@@ -333,8 +333,9 @@ def write_evidence(pid, tier, seed, level, coverage, assumptions, wall, violatio
         "wall_s": round(wall, 2),
         "violations": int(violations),
     }
-    os.makedirs(os.path.join(env.VERIF, "evidence"), exist_ok=True)
-    path = os.path.join(env.VERIF, "evidence", f"{pid}.json")
+    out = os.environ.get("VERIF_OUT", env.VERIF)
+    os.makedirs(os.path.join(out, "evidence"), exist_ok=True)
+    path = os.path.join(out, "evidence", f"{pid}.json")
     tmp = path + ".tmp"
     with open(tmp, "w") as f:
         json.dump(ev, f, indent=1, default=str)
@@ -383,7 +384,7 @@ def check_property(pid, tier, seed, only_facets=None, procs=16, max_rounds=4):
     evals = 0
     exhaustive_facets = []
     ctx = mp.get_context("fork")
-    found_dir = os.path.join(rdir, "found")
+    found_dir = os.path.join(os.environ.get("VERIF_OUT", env.VERIF), "replays", pid, "found")
     harness_errors = []
 
     with ctx.Pool(processes=procs) as pool:
